@@ -36,6 +36,7 @@ func (st *State) smLoad(m Val, k Val) (ok string, v Val) {
 }
 
 func (st *State) smStore(m Val, k, v Val) {
+	st.written[smDom] = true
 	d, vt, vv := st.smArrs()
 	id, kt := st.smID(m), smKey(k)
 	st.setArr(smDom, "(Array Int (Array Int Bool))", store(d, id, store(sel(d, id), kt, "true")))
@@ -44,6 +45,7 @@ func (st *State) smStore(m Val, k, v Val) {
 }
 
 func (st *State) smDelete(m Val, k Val) {
+	st.written[smDom] = true
 	d, _, _ := st.smArrs()
 	id, kt := st.smID(m), smKey(k)
 	st.setArr(smDom, "(Array Int (Array Int Bool))", store(d, id, store(sel(d, id), kt, "false")))
@@ -120,6 +122,7 @@ func modelSyncMapRange(st *State, fr *Frame, fn *ssa.Function, a []Val, pos toke
 	st.evalRangeInv(fr, rr, "inv-init", true)
 	// havoc what the callback may change
 	allocs := false
+	st.loopHavoc = true
 	for _, p := range e.fnWriteSet(f.F.Fn) {
 		if p == allocName {
 			allocs = true
@@ -127,6 +130,7 @@ func modelSyncMapRange(st *State, fr *Frame, fn *ssa.Function, a []Val, pos toke
 		}
 		st.havoc(p)
 	}
+	st.loopHavoc = false
 	if allocs {
 		st.bumpAlloc()
 	}
